@@ -25,7 +25,7 @@ from ..cfg import must_facts, holds, explore
 from ..mutate import mutate, remove_stmts, replace_expr, replace_stmt, parse_stmt, parse_expr
 from ..model import AnalysisError
 from ..rules import callers_of
-from ..x_valuewalk import single_assignment, own_nodes, const_collection, branch_flag
+from ..x_valuewalk import single_assignment, own_nodes, const_collection, branch_flag, alias_expand
 
 TECHNIQUE = "guard-dominance (branch outcome survives uses, dies on rebinding) at every field store + writer/reader agreement tables + post-dominance of cleanup + reaching-definition shape of the candidate"
 EXPLANATION = (
@@ -388,33 +388,51 @@ def rule_precedence(ck):
 
     g = hdr_get(last.ast.value) if last.kind == "stmt" and isinstance(last.ast, ast.Assign) else None
     ck.ob(rid, ap, last.ast if last.kind == "stmt" else ap.node, g is not None and g[0] == "x-real-ip" and not between, "the value that gets validated is X-Real-Ip when present (it is looked up last, so it takes precedence)")
-    if g is not None:
-        ck.ob(rid, ap, last.ast, q.dotted(g[1]) == cand, "without X-Real-Ip the X-Forwarded-For candidate is used (default of the X-Real-Ip lookup)")
-    # XFF scan
-    loops = [n for n in cfg.nodes if n.kind == "for" and n.id in cfg.reachable() and cand in {x.id for x in ast.walk(n.ast.target) if isinstance(x, ast.Name)}]
+    if g is None or not isinstance(g[1], ast.Name):
+        if g is not None:
+            if (q.dotted(g[1]) or "").startswith("self.") or isinstance(g[1], ast.Constant):
+                ck.ob(rid, ap, last.ast, False, "without X-Real-Ip the X-Forwarded-For candidate is used (default of the X-Real-Ip lookup is %s)" % q.unparse(g[1]))
+                return
+            raise AnalysisError("_apply_xheaders: default of the X-Real-Ip lookup is not a local name: %s" % q.unparse(g[1]))
+        return
+    scanv = g[1].id  # the X-Forwarded-For candidate: default of the X-Real-Ip lookup
+    # XFF scan: the loop that binds that candidate
+    loops = [n for n in cfg.nodes if n.kind == "for" and n.id in cfg.reachable() and scanv in {x.id for x in ast.walk(n.ast.target) if isinstance(x, ast.Name)}]
     if len(loops) != 1:
-        raise AnalysisError("_apply_xheaders: X-Forwarded-For scan loop not found")
+        # not a loop variable: is it established that it is something else?
+        defs_ = [d for d in cfg.stmt_nodes(lambda n: n.kind == "stmt" and scanv in q.assigned_paths(n.ast))]
+        if defs_ and all(isinstance(d.ast, ast.Assign) and (q.dotted(d.ast.value) or "").startswith("self.") for d in defs_):
+            ck.ob(rid, ap, last.ast, False, "without X-Real-Ip the X-Forwarded-For candidate is used (default of the X-Real-Ip lookup is %s)" % sorted({q.dotted(d.ast.value) for d in defs_}))
+            return
+        raise AnalysisError("_apply_xheaders: X-Forwarded-For scan loop for %s not found" % scanv)
     lp = loops[0]
     ck.ob(rid, ap, lp.ast.iter, cfg.dominates(lp, last), "the X-Forwarded-For scan comes before the X-Real-Ip lookup")
-    it = lp.ast.iter
+    it = alias_expand(ap.node, lp.ast.iter)
     splits = [c for c in ast.walk(it) if isinstance(c, ast.Call) and isinstance(c.func, ast.Attribute) and c.func.attr == "split" and len(c.args) == 1 and q.is_const(c.args[0], ",")]
     if len(splits) != 1:
         raise AnalysisError("_apply_xheaders: scan iterable not understood: %s" % q.unparse(it))
     rev = [c for c in ast.walk(it) if q.is_call(c, "reversed") and any(x is splits[0] for x in ast.walk(c))]
-    neg = [s for s in ast.walk(it) if isinstance(s, ast.Subscript) and isinstance(s.slice, ast.Slice) and s.slice.step is not None and q.unparse(s.slice.step) == "-1" and any(x is splits[0] for x in ast.walk(s))]
-    ck.ob(rid, ap, it, (len(rev) + len(neg)) == 1, "the list is scanned from the right (closest proxy first)")
-    ck.ob(rid, ap, it, any(isinstance(c, ast.Call) and isinstance(c.func, ast.Attribute) and c.func.attr == "strip" for c in ast.walk(it)) or any(isinstance(c, ast.Call) and isinstance(c.func, ast.Attribute) and c.func.attr == "strip" and cand in q.names_in(c) for st in lp.ast.body for c in ast.walk(st)), "entries are stripped of blanks before they are compared/validated")
-    src = q.dotted(splits[0].func.value)
-    sd = [d for d in cfg.stmt_nodes(lambda n: n.kind == "stmt" and src in q.assigned_paths(n.ast)) if cfg.dominates(d, lp)]
-    g2 = hdr_get(sd[-1].ast.value) if sd and isinstance(sd[-1].ast, ast.Assign) else None
-    ck.ob(rid, ap, sd[-1].ast if sd else lp.ast.iter, g2 is not None and g2[0] == "x-forwarded-for", "the scanned list is the X-Forwarded-For header")
+    neg = [s_ for s_ in ast.walk(it) if isinstance(s_, ast.Subscript) and isinstance(s_.slice, ast.Slice) and s_.slice.step is not None and q.unparse(s_.slice.step) == "-1" and any(x is splits[0] for x in ast.walk(s_))]
+    ck.ob(rid, ap, lp.ast.iter, (len(rev) + len(neg)) == 1, "the list is scanned from the right (closest proxy first)")
+    ck.ob(rid, ap, lp.ast.iter, any(isinstance(c, ast.Call) and isinstance(c.func, ast.Attribute) and c.func.attr == "strip" for c in ast.walk(it)) or any(isinstance(c, ast.Call) and isinstance(c.func, ast.Attribute) and c.func.attr == "strip" and scanv in q.names_in(c) for st in lp.ast.body for c in ast.walk(st)), "entries are stripped of blanks before they are compared/validated")
+    recv = splits[0].func.value
+    g2 = hdr_get(recv)
+    site = lp.ast.iter
+    if g2 is None:
+        src = q.dotted(recv)
+        sd = [d for d in cfg.stmt_nodes(lambda n: n.kind == "stmt" and src is not None and src in q.assigned_paths(n.ast)) if cfg.dominates(d, lp)]
+        if not sd:
+            raise AnalysisError("_apply_xheaders: source of the scanned list not understood: %s" % q.unparse(recv))
+        g2 = hdr_get(sd[-1].ast.value) if isinstance(sd[-1].ast, ast.Assign) else None
+        site = sd[-1].ast
+    ck.ob(rid, ap, site, g2 is not None and g2[0] == "x-forwarded-for", "the scanned list is the X-Forwarded-For header")
     if g2 is not None:
-        ck.ob(rid, ap, sd[-1].ast, q.dotted(g2[1]) == "self.remote_ip", "without X-Forwarded-For the candidate is the current (socket) address")
+        ck.ob(rid, ap, site, q.dotted(g2[1]) == "self.remote_ip", "without X-Forwarded-For the candidate is the current (socket) address")
     brk = [n for n in cfg.stmt_nodes(lambda n: n.kind == "stmt" and isinstance(n.ast, ast.Break)) if any(n.ast is x for x in ast.walk(lp.ast))]
-    untrusted = branch_flag(cfg, "%s in self.trusted_downstream" % cand, False, [cand])
+    untrusted = branch_flag(cfg, "%s in self.trusted_downstream" % scanv, False, [scanv])
     ck.ob(rid, ap, lp.ast.iter, len(brk) >= 1, "the scan stops at an entry", construct="break in scan: %d" % len(brk))
-    for b in brk:
-        ck.ob(rid, ap, b.ast, untrusted.get(b.id, False), "the scan stops exactly at the first entry that is not a trusted downstream proxy")
+    for b_ in brk:
+        ck.ob(rid, ap, b_.ast, untrusted.get(b_.id, False), "the scan stops exactly at the first entry that is not a trusted downstream proxy")
     # trusted_downstream is the configured set
     init = ck.func(HS, CTX + ".__init__")
     st = q.stores_to(init.node, "self.trusted_downstream")
